@@ -263,7 +263,9 @@ protected:
     } // else, both are inf, forget
   }
 
-  using SlackLink = pre::RangeLinCon2Slack<ModelConverter>;
+  /// The link type refers to the converted constraint type
+  /// (linear or quadratic range constraint)
+  using SlackLink = pre::RangeCon2Slack<ModelConverter, ItemType>;
   SlackLink& GetSlackLink() { return link_rng2slk_; }
 
 private:
